@@ -291,7 +291,7 @@ Proof.
   assert (Hnot : memq (norm true q) (g_all st) = false ->
      GInv fast max st /\ i2t (g_ti st) = i2t (g_ti st) /\ false = memq (norm true q) (g_all st) /\
      Permutation (g_all st) (filter (fun x => negb (quad_eqb (norm true q) x)) (g_all st))).
-  { intros Hm. repeat split; auto. rewrite filter_all; auto.
+  { intros Hm. split; [exact HI|]. split; [reflexivity|]. split; [auto|]. rewrite filter_all; auto.
     intros x Hx. destruct (quad_eqb (norm true q) x) eqn:Eq; auto. apply quad_eqb_eq in Eq. subst.
     apply memq_in in Hx. congruence. }
   unfold g_remove in E.
@@ -342,8 +342,8 @@ Proof.
     destruct fast.
     + destruct (HF eq_refl) as [Ipos Iosp]. inversion E; subst st' b. apply Hgoal; auto.
       intros _. split.
-      * apply (image_remove_eq t3 key3 key3_inj p_pos p_pos_inj (g_spo st) spo' (g_pos st) row); auto.
-      * apply (image_remove_eq t3 key3 key3_inj p_osp p_osp_inj (g_spo st) spo' (g_osp st) row); auto.
+      * apply (image_remove_eq t3 key3 key3_inj p_pos (g_spo st) spo' (g_pos st) row); auto.
+      * apply (image_remove_eq t3 key3 key3_inj p_osp (g_spo st) spo' (g_osp st) row); auto.
     + inversion E; subst st' b. apply Hgoal; auto. discriminate.
   - (* absent: nothing changes *)
     rewrite (Hsame eq_refl) in *.
@@ -351,3 +351,218 @@ Proof.
     { destruct fast; inversion E; subst; split; auto. destruct st; reflexivity. }
     destruct H as [-> ->]. apply Hnot. auto.
 Qed.
+
+(* ---------- triples_matching ---------- *)
+Lemma range_map_filter {A B C} (key : A -> list N) (key_inj : forall x y, key x = key y -> x = y)
+      (ix : list A) lo hi (proj : A -> B) (pr : B -> bool) (mk : B -> C) :
+  ssorted key ix ->
+  map mk (filter pr (map proj (set_range A key lo hi ix)))
+  = map (fun t => mk (proj t)) (filter (fun t => between A key lo hi t && pr (proj t)) ix).
+Proof.
+  intros Hs. rewrite (set_range_filter A key key_inj) by auto.
+  rewrite filter_map_comm, map_map, filter_filter. reflexivity.
+Qed.
+
+Lemma bc_arm ti ix lo hi bm cm back a0 :
+  ssorted key3 ix ->
+  (forall a b c, In (a, b, c) ix -> between t3 key3 lo hi (a, b, c) = true -> a = a0) ->
+  bc_boxed ti (set_range t3 key3 lo hi ix) bm cm back
+  = map (fun r => back (dec3 ti r)) (filter (fun t => between t3 key3 lo hi t && m3bc ti bm cm t) ix).
+Proof.
+  intros Hs Ha. rewrite (set_range_filter t3 key3 key3_inj) by auto.
+  rewrite (bc_boxed_spec ti _ bm cm back a0).
+  - rewrite filter_filter. reflexivity.
+  - intros a b c Hin. apply filter_In in Hin. destruct Hin. eauto.
+Qed.
+
+Lemma rows3_image n perm ix spo :
+  (forall s p o, let '(a, b, c) := perm (s, p, o) in (s < n /\ p < n /\ o < n) -> (a < n /\ b < n /\ c < n)) ->
+  rows3_lt n spo -> Permutation ix (map perm spo) -> rows3_lt n ix.
+Proof.
+  intros Hp Hr P a b c Hin. eapply Permutation_in in Hin; [|exact P].
+  apply in_map_iff in Hin. destruct Hin as ([[s p] o] & E & Hin).
+  specialize (Hp s p o). rewrite E in Hp. apply Hp. apply Hr; auto.
+Qed.
+
+Lemma g_rhs st sm pm om gm :
+  filter (qmatch true sm pm om gm) (g_all st)
+  = map q_of_t3 (map (dec3 (g_ti st)) (filter (m3 (g_ti st) sm pm om) (g_spo st))).
+Proof.
+  unfold g_all. rewrite filter_map_comm, map_map. f_equal. apply filter_ext_in'.
+  intros [[s p] o] _. unfold qmatch, m3. simpl. rewrite andb_true_r. reflexivity.
+Qed.
+
+Lemma empty_ok {A B} (f : A -> bool) (d : A -> B) l :
+  (forall x, In x l -> f x = false) -> Permutation (@nil B) (map d (filter f l)).
+Proof. intros H. rewrite filter_none; auto. Qed.
+
+Section GQuery.
+Variables (max : N) (st : gstore) (sm pm om : tmatcher).
+Hypothesis Wsm : tm_wf sm.
+Hypothesis Wpm : tm_wf pm.
+Hypothesis Wom : tm_wf om.
+Notation ti := (g_ti st).
+Notation n := (tlen (g_ti st)).
+Hypothesis HT : TInv max ti.
+Hypothesis HS : ssorted key3 (g_spo st).
+Hypothesis HR : rows3_lt n (g_spo st).
+
+Lemma n_le_max : n <= max.
+Proof. destruct HT; auto. Qed.
+
+Lemma contains_arm3 si pi oi :
+  (forall s p o, In (s, p, o) (g_spo st) -> m3 ti sm pm om (s, p, o) = (s =? si) && (p =? pi) && (o =? oi)) ->
+  Permutation (if set_contains t3 key3 (si, pi, oi) (g_spo st)
+               then [(get_term ti si, get_term ti pi, get_term ti oi)] else [])
+              (map (dec3 ti) (filter (m3 ti sm pm om) (g_spo st))).
+Proof.
+  intros Hm.
+  assert (Hf : forall x, In x (g_spo st) -> (m3 ti sm pm om x = true <-> x = (si, pi, oi))).
+  { intros [[s p] o] Hin. rewrite Hm by auto. rewrite !andb_true_iff, !N.eqb_eq. split.
+    - intros [[-> ->] ->]; auto.
+    - intros E; inversion E; auto. }
+  pose proof (set_contains_spec t3 key3 key3_inj (si, pi, oi) (g_spo st) HS) as Hc.
+  destruct (set_contains t3 key3 (si, pi, oi) (g_spo st)).
+  - rewrite (filter_single_in _ _ (si, pi, oi)); auto.
+    + eapply ssorted_nodup; eauto. apply key3_inj.
+    + apply Hc; auto.
+  - rewrite (filter_single_notin _ _ (si, pi, oi)); auto.
+    intros Hin. apply Hc in Hin. discriminate.
+Qed.
+End GQuery.
+
+Ltac row_facts HT :=
+  repeat match goal with
+  | Hc : tm_const ?m = Some ?c, Hg : get_index ?ti ?c = Some ?i, W : tm_wf ?m
+    |- context [tm_pred ?m (get_term ?ti ?x)] =>
+      rewrite (const_known _ ti m c i x HT W Hc Hg) by lia
+  | Hc : tm_const ?m = Some ?c, Hg : get_index ?ti ?c = None, W : tm_wf ?m
+    |- context [tm_pred ?m (get_term ?ti ?x)] =>
+      rewrite (const_unknown _ ti m c x HT W Hc Hg) by lia
+  end.
+
+Ltac eqs_from H :=
+  repeat (rewrite andb_true_iff in H);
+  repeat match type of H with _ /\ _ => let H1 := fresh in destruct H as [H H1]; try (apply N.eqb_eq in H1) end;
+  try (apply N.eqb_eq in H).
+
+Theorem fg_query_ok max st sm pm om :
+  GInv true max st -> tm_wf sm -> tm_wf pm -> tm_wf om ->
+  Permutation (fg_query max st sm pm om)
+              (map (dec3 (g_ti st)) (filter (m3 (g_ti st) sm pm om) (g_spo st))).
+Proof.
+  intros (HT & HS & HR & HF) Wsm Wpm Wom. destruct (HF eq_refl) as [[Spos Ppos] [Sosp Posp]].
+  pose proof (n_le_max max st HT) as Hle.
+  assert (Rpos : rows3_lt (tlen (g_ti st)) (g_pos st)).
+  { eapply rows3_image; [|exact HR|exact Ppos]. intros s p o. simpl. tauto. }
+  assert (Rosp : rows3_lt (tlen (g_ti st)) (g_osp st)).
+  { eapply rows3_image; [|exact HR|exact Posp]. intros s p o. simpl. tauto. }
+  assert (Pspo : Permutation (g_spo st) (map (fun x => x) (g_spo st))) by (rewrite map_id; auto).
+  unfold fg_query, early, bind_t.
+  destruct (tm_const sm) as [sc|] eqn:Csm; cbn [option_map];
+    [destruct (get_index (g_ti st) sc) as [si|] eqn:Gsm|];
+  (destruct (tm_const pm) as [pc|] eqn:Cpm; cbn [option_map];
+    [destruct (get_index (g_ti st) pc) as [pi|] eqn:Gpm|]);
+  (destruct (tm_const om) as [oc|] eqn:Com; cbn [option_map];
+    [destruct (get_index (g_ti st) oc) as [oi|] eqn:Gom|]);
+  (* an unknown constant: nothing can match *)
+  try (apply empty_ok; intros [[s p] o] Hin; destruct (HR s p o Hin) as (A & B & C);
+       unfold m3; row_facts HT; rewrite ?andb_false_r; reflexivity).
+  - (* s p o *)
+    apply contains_arm3; auto.
+    intros s p o Hin. destruct (HR s p o Hin) as (A & B & C). unfold m3. row_facts HT. reflexivity.
+  - (* s p - : spo *)
+    rewrite (range_map_filter key3 key3_inj) by auto.
+    apply (arm_generic (fun x => x)); [exact Pspo|].
+    intros [[s p] o] Hin. destruct (HR s p o Hin) as (A & B & C). unfold m3, third3. row_facts HT.
+    rewrite (btw3_2 max) by lia. split; [btauto|]. intros Hm. eqs_from Hm. subst. reflexivity.
+  - (* s - o : osp *)
+    rewrite (range_map_filter key3 key3_inj) by auto.
+    apply (arm_generic p_osp); [exact Posp|].
+    intros [[s p] o] Hin. destruct (HR s p o Hin) as (A & B & C). unfold m3, third3, p_osp. row_facts HT.
+    rewrite (btw3_2 max) by lia. split; [btauto|]. intros Hm. eqs_from Hm. subst. reflexivity.
+  - (* s - - : spo *)
+    rewrite (bc_arm _ _ _ _ _ _ _ si); auto.
+    2:{ intros a b c Hin Hb. destruct (HR a b c Hin) as (A & B & C).
+        rewrite (btw3_1 max) in Hb by lia. apply N.eqb_eq in Hb. auto. }
+    apply (arm_generic (fun x => x)); [exact Pspo|].
+    intros [[s p] o] Hin. destruct (HR s p o Hin) as (A & B & C). unfold m3, m3bc. row_facts HT.
+    rewrite (btw3_1 max) by lia. split; [btauto|]. intros Hm. reflexivity.
+  - (* - p o : pos *)
+    rewrite (range_map_filter key3 key3_inj) by auto.
+    apply (arm_generic p_pos); [exact Ppos|].
+    intros [[s p] o] Hin. destruct (HR s p o Hin) as (A & B & C). unfold m3, third3, p_pos. row_facts HT.
+    rewrite (btw3_2 max) by lia. split; [btauto|]. intros Hm. eqs_from Hm. subst. reflexivity.
+  - (* - p - : pos *)
+    rewrite (bc_arm _ _ _ _ _ _ _ pi); auto.
+    2:{ intros a b c Hin Hb. destruct (Rpos a b c Hin) as (A & B & C).
+        rewrite (btw3_1 max) in Hb by lia. apply N.eqb_eq in Hb. auto. }
+    apply (arm_generic p_pos); [exact Ppos|].
+    intros [[s p] o] Hin. destruct (HR s p o Hin) as (A & B & C). unfold m3, m3bc, p_pos. row_facts HT.
+    rewrite (btw3_1 max) by lia. split; [btauto|]. intros Hm. reflexivity.
+  - (* - - o : osp *)
+    rewrite (bc_arm _ _ _ _ _ _ _ oi); auto.
+    2:{ intros a b c Hin Hb. destruct (Rosp a b c Hin) as (A & B & C).
+        rewrite (btw3_1 max) in Hb by lia. apply N.eqb_eq in Hb. auto. }
+    apply (arm_generic p_osp); [exact Posp|].
+    intros [[s p] o] Hin. destruct (HR s p o Hin) as (A & B & C). unfold m3, m3bc, p_osp. row_facts HT.
+    rewrite (btw3_1 max) by lia. split; [btauto|]. intros Hm. reflexivity.
+  - (* - - - *)
+    rewrite spo_boxed_spec. apply Permutation_refl.
+Qed.
+
+Theorem lg_query_ok max st sm pm om :
+  GInv false max st -> tm_wf sm -> tm_wf pm -> tm_wf om ->
+  Permutation (lg_query max st sm pm om)
+              (map (dec3 (g_ti st)) (filter (m3 (g_ti st) sm pm om) (g_spo st))).
+Proof.
+  intros (HT & HS & HR & HF) Wsm Wpm Wom.
+  pose proof (n_le_max max st HT) as Hle.
+  assert (Pspo : Permutation (g_spo st) (map (fun x => x) (g_spo st))) by (rewrite map_id; auto).
+  unfold lg_query.
+  destruct (tm_const sm) as [sc|] eqn:Csm.
+  2:{ rewrite spo_boxed_spec. apply Permutation_refl. }
+  destruct (get_index (g_ti st) sc) as [si|] eqn:Gsm.
+  2:{ apply empty_ok; intros [[s p] o] Hin; destruct (HR s p o Hin) as (A & B & C);
+      unfold m3; row_facts HT; rewrite ?andb_false_r; reflexivity. }
+  destruct (tm_const pm) as [pc|] eqn:Cpm.
+  2:{ rewrite (bc_arm _ _ _ _ _ _ _ si); auto.
+      2:{ intros a b c Hin Hb. destruct (HR a b c Hin) as (A & B & C).
+          rewrite (btw3_1 max) in Hb by lia. apply N.eqb_eq in Hb. auto. }
+      apply (arm_generic (fun x => x)); [exact Pspo|].
+      intros [[s p] o] Hin. destruct (HR s p o Hin) as (A & B & C). unfold m3, m3bc. row_facts HT.
+      rewrite (btw3_1 max) by lia. split; [btauto|]. intros Hm. reflexivity. }
+  destruct (get_index (g_ti st) pc) as [pi|] eqn:Gpm.
+  2:{ apply empty_ok; intros [[s p] o] Hin; destruct (HR s p o Hin) as (A & B & C);
+      unfold m3; row_facts HT; rewrite ?andb_false_r; reflexivity. }
+  destruct (tm_const om) as [oc|] eqn:Com.
+  2:{ rewrite (range_map_filter key3 key3_inj) by auto.
+      apply (arm_generic (fun x => x)); [exact Pspo|].
+      intros [[s p] o] Hin. destruct (HR s p o Hin) as (A & B & C). unfold m3, third3. row_facts HT.
+      rewrite (btw3_2 max) by lia. split; [btauto|]. intros Hm. eqs_from Hm. subst. reflexivity. }
+  destruct (get_index (g_ti st) oc) as [oi|] eqn:Gom.
+  2:{ apply empty_ok; intros [[s p] o] Hin; destruct (HR s p o Hin) as (A & B & C);
+      unfold m3; row_facts HT; rewrite ?andb_false_r; reflexivity. }
+  apply contains_arm3; auto.
+  intros s p o Hin. destruct (HR s p o Hin) as (A & B & C). unfold m3. row_facts HT. reflexivity.
+Qed.
+
+Theorem g_query_ok fast max st sm pm om gm :
+  GInv fast max st -> tm_wf sm -> tm_wf pm -> tm_wf om ->
+  Permutation (g_query fast max st sm pm om gm) (filter (qmatch true sm pm om gm) (g_all st)).
+Proof.
+  intros HI W1 W2 W3. rewrite g_rhs. unfold g_query. apply Permutation_map.
+  destruct fast; [apply fg_query_ok | apply lg_query_ok]; auto.
+Qed.
+
+(* the graph stores satisfy the interface *)
+Definition graph_ok (fast : bool) (max : N) : impl_ok (Some max) (graph_impl fast max).
+Proof.
+  refine (mkOk (Some max) (graph_impl fast max) (GInv fast max) (fun st => i2t (g_ti st)) _ _ _ _ _ _).
+  - split; [apply ginv_empty | split; reflexivity].
+  - intros s HI. eapply ginv_nodup; eauto.
+  - intros s q HI Hin. eapply g_all_norm; eauto.
+  - intros s q s' r HI E. exact (g_insert_ok fast max s q s' r HI E).
+  - intros s q s' b HI E. exact (g_remove_ok fast max s q s' b HI E).
+  - intros s sm pm om gm HI W1 W2 W3 W4. apply g_query_ok; auto.
+Defined.
